@@ -158,12 +158,39 @@ func (e *Exec) crashInvariants(c *chainlib.Node, tag string) {
 		if err != nil {
 			// refused only by the irreversible height or an invalid block the scenario built on purpose
 			if !e.walkMayFail(ptr, tip) {
-				e.violate("crash-sync-failed", fmt.Sprintf("%s: walking the recovered state from block %d to the ledger tip %d fails: %v", tag, ptr, tip, err), "")
+				key := "crash-sync-failed"
+				if b, ti := e.spendsFrozenAbove(ptr, tip); b >= 0 {
+					// the node's own block carries a pending transaction that was (re-)admitted while the ledger was
+					// higher (before a truncation): at the ledger height of the restart its input is still frozen
+					key = "crash-sync-failed:block-spends-output-frozen-above-ledger-height"
+					tag = fmt.Sprintf("%s [block %d, tx %d]", tag, b, ti)
+				}
+				e.violate(key, fmt.Sprintf("%s: walking the recovered state from block %d to the ledger tip %d fails: %v", tag, ptr, tip, err), "")
 			}
 			return
 		}
 		e.checkNodeAgainstSpec(c, tip, tag+" then walk to tip", "crash-sync-state")
 	}
+}
+
+// spendsFrozenAbove: a block the walk from a to b has to apply contains a transaction one of whose inputs is an output
+// frozen until a height above the height of b (the ledger height at which the restarted node verifies it)
+func (e *Exec) spendsFrozenAbove(a, b int) (int, int) {
+	w := e.w
+	hb := w.Blocks[b].Height
+	for _, x := range w.chain(b) {
+		if w.isAncestorOrSelf(x, a) {
+			continue
+		}
+		for _, ti := range w.Blocks[x].Txs {
+			for _, in := range w.Txs[ti].Tx.TxInputs {
+				if in.FrozenHeight > hb {
+					return x, ti
+				}
+			}
+		}
+	}
+	return -1, -1
 }
 
 // walkMayFail: a walk from a to b may legitimately fail when the scenario contains deliberately invalid blocks
